@@ -683,3 +683,42 @@ func TestC22(t *testing.T) {
 		c22RunReader(rt, rec, c, "rapid")
 	})
 }
+
+// FuzzC22 drives the reader oracle from raw bytes (thorough tier only):
+// stream = the stream itself, script = buffer size, chunk plan and op list.
+func FuzzC22(f *testing.F) {
+	rec := ev.New("C22", "")
+	f.Add([]byte("GET / HTTP/1.1\r\nHost: a\r\n\r\n"), []byte{0, 3, 5, 7, 30, 6, 6, 6, 6})
+	f.Add([]byte("aaaaaaaaaaaaaaa\r\nbbbb\n"), []byte{0, 1, 48, 6, 6, 1, 2, 6})
+	f.Add([]byte("a\xe4\xb8\x96b\xff\n"), []byte{3, 2, 1, 2, 3, 4, 3, 1, 2, 5, 10, 9, 11})
+	f.Fuzz(func(t *testing.T, stream []byte, script []byte) {
+		if len(stream) > 400 || len(script) < 3 || len(script) > 80 {
+			t.Skip()
+		}
+		c := &c22RCase{Buf: 16 + int(script[0])%25, Stream: fmt.Sprintf("%x", stream)}
+		c.EOFData = script[0]&0x80 != 0
+		c.WT = script[0]&0x40 != 0
+		nch := 1 + int(script[1])%5
+		rest := script[2:]
+		for i := 0; i < nch && len(rest) > 0; i++ {
+			c.Chunks = append(c.Chunks, 1+int(rest[0])%48)
+			rest = rest[1:]
+		}
+		names := []string{"Read", "ReadByte", "UnreadByte", "ReadRune", "UnreadRune", "ReadSlice", "ReadLine", "ReadBytes", "ReadString", "Peek", "Buffered", "WriteTo"}
+		for len(rest) > 0 {
+			op := c22ROp{Op: names[int(rest[0]&0x0f)%len(names)]}
+			arg := int(rest[0] >> 4)
+			rest = rest[1:]
+			switch op.Op {
+			case "Read":
+				op.N = 1 + arg*3
+			case "Peek":
+				op.N = arg * 3
+			case "ReadSlice", "ReadBytes", "ReadString":
+				op.D = []byte{'\n', 'a', 'x', '\r'}[arg%4]
+			}
+			c.Ops = append(c.Ops, op)
+		}
+		c22RunReader(t, rec, c, "fuzz")
+	})
+}
